@@ -18,7 +18,7 @@ from .labelrun import LV, RelabelInterp
 from .resultrun import Tagged
 
 INFO = {
-    "explanation": "Rounds 4/5: R09.6 delegated (label tuples of the pair do not depend on the presence of background); bounding-box views that keep the foreground; crop mask by bitwise or. R10.5 (round 4): no slice start of the form bound - padding anywhere in the package without a clamp at 0 (with a built-in positive example). (R10.1) _ProcessingPair.crop_data is interpreted on abstract arrays: the crop is computed from both arrays and the SAME slice tuple is applied to prediction and reference, a second call is a no-op; the per-instance crop does the same (delegated R02.5); (R10.2/R10.3) _get_bbox_nd is interpreted symbolically for 1-D/2-D/3-D arrays with per-axis unknowns (first/last occupied index, extent, padding >= 0): slice j is built from axis j, its start is within [0, first occupied index] (a negative start would wrap around) and its stop is at least last occupied index + 1, so no foreground voxel is ever cropped away whatever the offset/padding of the object in the array; the padding handed in by the pair crop is a non-negative constant; (R10.4) geometry-sensitive configuration, delegated: ASSD borders treat out-of-array as background without wrap-around shifts (R07.2) and candidate pairs are always ordered by score, never by label/scan order (R03.2, R03.6). Further delegated: backend choice depends on the dimensionality only and library call configuration (R05.1/R05.2); crop arithmetic cannot wrap (R09.2). (R10.3) _get_paired_crop is run on abstract arrays: the mask handed to the bounding-box helper is exactly (prediction != 0) or (reference != 0), everything when both are empty. Further: R10.4 (pair constructor), crop of a copy of a cropped pair (R10.1), arithmetic crop masks (R10.3); delegated R15.1/R15.8. Round 8: (R10.6, shape rule over the whole package, with built-in positive and negative examples) no store through x.reshape(-1) / x.ravel() / np.ravel(x) of an array whose memory layout the function does not fix while x is still used: for Fortran-ordered or strided arrays the alias is a copy and the store is lost.",
+    "explanation": "Rounds 4/5: R09.6 delegated (label tuples of the pair do not depend on the presence of background); bounding-box views that keep the foreground; crop mask by bitwise or. R10.5 (round 4): no slice start of the form bound - padding anywhere in the package without a clamp at 0 (with a built-in positive example). (R10.1) _ProcessingPair.crop_data is interpreted on abstract arrays: the crop is computed from both arrays and the SAME slice tuple is applied to prediction and reference, a second call is a no-op; the per-instance crop does the same (delegated R02.5); (R10.2/R10.3) _get_bbox_nd is interpreted symbolically for 1-D/2-D/3-D arrays with per-axis unknowns (first/last occupied index, extent, padding >= 0): slice j is built from axis j, its start is within [0, first occupied index] (a negative start would wrap around) and its stop is at least last occupied index + 1, so no foreground voxel is ever cropped away whatever the offset/padding of the object in the array; the padding handed in by the pair crop is a non-negative constant; (R10.4) geometry-sensitive configuration, delegated: ASSD borders treat out-of-array as background without wrap-around shifts (R07.2) and candidate pairs are always ordered by score, never by label/scan order (R03.2, R03.6). Further delegated: backend choice depends on the dimensionality only and library call configuration (R05.1/R05.2); crop arithmetic cannot wrap (R09.2). (R10.3) _get_paired_crop is run on abstract arrays: the mask handed to the bounding-box helper is exactly (prediction != 0) or (reference != 0), everything when both are empty. Further: R10.4 (pair constructor), crop of a copy of a cropped pair (R10.1), arithmetic crop masks (R10.3); delegated R15.1/R15.8. Round 8: (R10.6, shape rule over the whole package, with built-in positive and negative examples) no store through x.reshape(-1) / x.ravel() / np.ravel(x) of an array whose memory layout the function does not fix while x is still used: for Fortran-ordered or strided arrays the alias is a copy and the store is lost. Round 9: max / min of two whole tuples is python's lexicographic comparison in the bounding-box domain (the first differing position decides - not a clip per axis): each outcome is a path, judged with a witness.",
     "trusted_base": ["numpy basic slicing with a tuple of slices; np.any/np.where along an axis", "cc3d / scipy.ndimage are invariant under flips, axis permutations and memory layout (not analysed)"],
     "assumptions": [],
     "not_decided": ["invariance of the connected-component libraries and of the Euclidean feature transform under flips/permutations/layout"],
